@@ -29,7 +29,7 @@ type Composite struct {
 type Schema struct {
 	Tables     []Table
 	Types      []Composite
-	Statements []string // every other statement (ALTER TABLE ..., free-standing), trimmed, without the final ';', in output order
+	Statements []string          // every other statement (ALTER TABLE ..., free-standing), trimmed, without the final ';', in output order
 	Functions  map[string]string // validation function name -> whole text
 	FuncOrder  []string
 }
